@@ -303,6 +303,7 @@ Redel(v, v2, n) == [k |-> "stake", op |-> "redelegate", v |-> v, v2 |-> v2, coin
 Withdraw(v) == [k |-> "distr", op |-> "withdraw", v |-> v, to |-> ""]
 SetW(to) == [k |-> "distr", op |-> "set_withdraw", v |-> "", to |-> to]
 Advance(dt) == [k |-> "advance", dt |-> dt]
+Slash(v, p) == [k |-> "sudo_slash", v |-> v, p |-> p]
 ModsStake == [s \in Slots |-> IF s \in {"staking", "distribution"} THEN "real" ELSE "fail"]
 GenesisStake ==
     << [call |-> [k |-> "store_code", creator |-> "u1", flavour |-> 1], sc |-> <<>>],
@@ -311,7 +312,7 @@ GenesisStake ==
        [call |-> ExecuteCall("u1", << Inst(1, "L1", "u1", <<>>, "") >>), sc |-> <<B0>>],
        [call |-> ExecuteCall("u1", << Inst(2, "L2", "", <<>>, "") >>), sc |-> <<B0>>],
        [call |-> ExecuteCall("u1", << Send(A, 3) >>), sc |-> <<>>],
-       [call |-> ExecuteCall("u1", << Stake("delegate", "v1", 1) >>), sc |-> <<>>] >>
+       [call |-> ExecuteCall("u1", << Stake("delegate", "v1", 2) >>), sc |-> <<>>] >>
 StakeSubMsgs ==
     {Stake("delegate", "v1", 2), Stake("undelegate", "v1", 1), Withdraw("v1"), Stake("delegate", "v1", 9)}
     \cup (IF Level > 1 THEN {Stake("delegate", "v2", 1), Redel("v1", "v2", 1), SetW("u2"), Stake("delegate", "vx", 1)} ELSE {})
@@ -327,10 +328,12 @@ StakeCalls(rt, cd, n) ==
     { ExecuteCall("u1", <<m>>) :
         m \in {Stake("delegate", "v1", 2), Stake("delegate", "v2", 1), Stake("delegate", "vx", 1), Stake("delegate", "v1", 0),
                StakeDen("delegate", "v1", "btc", 1), Stake("delegate", "v1", 9),
-               Stake("undelegate", "v1", 1), Stake("undelegate", "v1", 5), StakeDen("undelegate", "v1", "btc", 1),
+               Stake("undelegate", "v1", 1), Stake("undelegate", "v1", 2), Stake("undelegate", "v1", 5), StakeDen("undelegate", "v1", "btc", 1),
                Redel("v1", "v2", 1), Redel("v1", "vx", 1), Withdraw("v1"), Withdraw("vx"), SetW("u2"), SetW("bad")} }
     \cup (IF Level > 1 THEN { ExecuteCall("u1", <<m>>) : m \in {Redel("v2", "v1", 0), SetW("u1"), Withdraw("v2"), Stake("undelegate", "v2", 1)} } ELSE {})
     \cup { ExecuteCall("u1", << Exec(A, <<>>) >>), [k |-> "next_block"], Advance(10) }
+    \cup UNION { { Slash(v, p) : p \in {q \in {"half", "all", "over"} : q \in {"all", "over"} \/ SlashExact(rt.sk, v, "half")} } :
+                    v \in {"v1"} \cup (IF Level > 1 THEN {"v2", "vx"} ELSE {}) }
 ModsAcceptAll == ModsFor(Slots)
 ModsMixed == ModsFor({"custom", "ibc", "any"})
 =============================================================================
